@@ -13,8 +13,8 @@ CHECKS = {
          'No counter-example in N random histories; after every operation the resolved steps are compared through three observation points and the specification dict with its snapshot.',
          'Trusts the reference fold in mtv/ref_lang.py; the private per-type resolver is observed when present.', '5/C03'),
  'C05': ('model-based testing: operation histories interpreted on Model and on an abstract reference model in lock step; bounded-exhaustive short histories + Hypothesis-generated long ones',
-         'All histories of length <=3 (quick) / <=4 (thorough) over an 21-operation alphabet are enumerated completely; longer histories are random. Exploration.',
-         'Trusts mtv/ref_model.py; objects compare by value in the toolbox, so operations passing a removed object that equals a live one are not generated.', '5/C05'),
+         'All histories of length <=3 (quick) / <=4 (thorough) over a 21-operation alphabet are enumerated completely; longer histories are random. Exploration.',
+         'Trusts mtv/ref_model.py; the generated schema objects compare by value (the duplicate-association test still relies on that), so operations passing a removed object that equals a live one are not generated.', '5/C05'),
  'C06': ('generated languages x lists of valid and invalid construction attempts (defense range, member type, multiplicity, repeats, duplicate links) labelled by a reference; namespace inspection',
          'No counter-example in N random (language, attempts) cases: every attempt is labelled by the reference and must be accepted/visible or rejected/without effect; the final model is scanned for forbidden content.',
          'python_jsonschema_objects is trusted; mtv/ref_model.py decides validity.', '5/C06'),
